@@ -46,6 +46,13 @@ func canonLenOperand(v ssa.Value) ssa.Value {
 		case *ssa.ChangeType:
 			v = x.X
 			continue
+		case *ssa.Convert:
+			// string <-> []byte keeps the length
+			if isByteSeq(x.Type()) && isByteSeq(x.X.Type()) {
+				v = x.X
+				continue
+			}
+			return v
 		case *ssa.UnOp:
 			if x.Op != token.MUL {
 				return v
@@ -99,6 +106,18 @@ func canonLenOperand(v ssa.Value) ssa.Value {
 		}
 		return v
 	}
+}
+
+func isByteSeq(t types.Type) bool {
+	if isStringType(t) {
+		return true
+	}
+	if sl, ok := t.Underlying().(*types.Slice); ok {
+		if b, ok := sl.Elem().Underlying().(*types.Basic); ok && b.Kind() == types.Byte {
+			return true
+		}
+	}
+	return false
 }
 
 // addrKey renders a field-address chain rooted at a parameter / free variable / value: "p#0.HealthCheck.Test".
